@@ -39,9 +39,9 @@ Accepted subset (anything else raises TranslateError with file:line):
              inside the then-branch of `if v:`.
   statements x = e;  x += e / x -= e on ints;  x = [] (fresh list of str);  x.append(e)
              on such a list as long as it has not been aliased;  if / elif / else
-             (what follows a conditional is translated into both branches; `if v:` on a
-             None-or-int v is ExpandRt.if_truthy: the then-branch runs for an int != 0,
-             the else-branch for None and for 0);  for x in e / for i, x in enumerate(e)
+             (what follows a conditional is translated into both branches; `if v:` / `if not v:`
+             on a None-or-int v is ExpandRt.if_truthy: one branch runs for an int != 0,
+             the other for None and for 0);  for x in e / for i, x in enumerate(e)
              (e a list of str, or a str: its characters; no else; e is evaluated once,
              before the loop; i is an int);
              the generator idiom
@@ -725,15 +725,21 @@ class FunctionTranslator:
         else_stmts = orelse if et else orelse + rest
         env_t, env_f = env.copy(), env.copy()
         test = s.test
-        if isinstance(test, ast.Name) and env.types.get(test.id) == OPTINT:
-            # `if v:` on None | int
-            v = test.id
-            env_t.types[v] = INT
+        negated = isinstance(test, ast.UnaryOp) and isinstance(test.op, ast.Not) \
+            and isinstance(test.operand, ast.Name) and env.types.get(test.operand.id) == OPTINT
+        if negated or (isinstance(test, ast.Name) and env.types.get(test.id) == OPTINT):
+            # `if v:` / `if not v:` on None | int: the branch for an int != 0 gets the int
+            v = test.operand.id if negated else test.id
+            truthy, falsy = (else_stmts, then_stmts) if negated else (then_stmts, else_stmts)
+            env_i, env_n = env.copy(), env.copy()
+            env_i.types[v] = INT
             out = self.line(ind, "if_truthy %s (fun %s =>" % (v, v), s)
-            out += _close(self.block(then_stmts, env_t, k, ind + 2), ")")
+            if negated:
+                out += self.line(ind + 2, "(* %d: else (%s is an int other than 0) *)" % (s.lineno, v))
+            out += _close(self.block(truthy, env_i, k, ind + 2), ")")
             out += self.line(ind + 1, "(" + " " * max(2, 66 - 2 * (ind + 1) - 1)
-                             + "(* %d: else (%s is None or 0) *)" % (s.lineno, v))
-            out += _close(self.block(else_stmts, env_f, k, ind + 2), ")")
+                             + "(* %d: %s (%s is None or 0) *)" % (s.lineno, "then" if negated else "else", v))
+            out += _close(self.block(falsy, env_n, k, ind + 2), ")")
             return out
         pre = []
         if isinstance(test, ast.Name) and env.types.get(test.id) == INT:
